@@ -1921,8 +1921,6 @@ fn poly_state(pg: &Polygon3D) -> String {
 pub fn c11(r: &mut Rng, out: &mut Out, n: usize) {
     for case in 0..n {
         let f = any_frame(r);
-        // one case in six: a small polygon (a few decimetres across)
-        let f = if r.below(6) == 0 { f.scaled(r.pick(&[0.03, 0.05, 0.1])) } else { f };
         let (o, c, rad, ext) = outline_with_disc(r);
         let outer = placed(&f, &o);
         if case % 8 == 7 {
@@ -1936,8 +1934,21 @@ pub fn c11(r: &mut Rng, out: &mut Out, n: usize) {
         let ring = holes_in_disc(r, 3, c, rad);
         for j in 0..k {
             let nv = 3 + r.below(6);
-            let (closed, pts): (bool, Vec<Point3D>) = match r.below(12) {
-                0 | 1 | 2 => {
+            let (closed, pts): (bool, Vec<Point3D>) = match r.below(13) {
+                12 if j == 0 => {
+                    // a small hole just inside the outline next to the midpoint of the FIRST outer edge (where the ray of the
+                    // point-in-loop test starts): clearly admissible when the corner angles allow it, else band
+                    let (a, b) = (o[0], o[1]);
+                    let l = dist2(a, b).max(1e-9);
+                    // inward normal of a counter-clockwise outline (the families used here are counter-clockwise)
+                    let nrm = (-(b.1 - a.1) / l, (b.0 - a.0) / l);
+                    let m = mid(a, b);
+                    let dd = r.pick(&[0.12, 0.2, 0.3]);
+                    let hn = 3 + r.below(3);
+                    let h = hole(r, hn, (m.0 + nrm.0 * dd, m.1 + nrm.1 * dd), 0.06);
+                    (true, placed(&f, &h))
+                }
+                12 | 0 | 1 | 2 => {
                     // clearly inside (disjoint sectors of the free disc)
                     let h = ring[j % 3].clone();
                     let cx = h.iter().map(|p| p.0).sum::<f64>() / h.len() as f64;
